@@ -397,7 +397,62 @@ def _exec_formula(case):
     return [ev], mism
 
 
-_EXEC = {'print': _exec_print, 'hand': _exec_hand, 'ring': _exec_ring, 'balance': _exec_balance,
+def _exec_fhist(case):
+    """Second-use history of parse_formula: parse, parse, edit the first result in place, parse
+    again; then two species built from the same formula, one edited (ethoxy = ethanol - H), used
+    together in reactions."""
+    from pmutt import parse_formula
+    from pmutt.empirical import EmpiricalBase
+    from pmutt.reaction import Reaction
+    items = case['items']
+    text = ''.join(sym + (str(n) if n else '') for sym, n in items)
+    sym, new = case['edit']
+
+    def proj(res):
+        return [[codes(k), int(v)] for k, v in res.items()]
+
+    def fev(res, rep):
+        return {'ev': 'formula', 'text': codes(text), 'items': [[codes(s_), int(n)] for s_, n in items],
+                'result': proj(res), 'raised': False, 'rep': rep}
+    events, mism = [], []
+    r1 = parse_formula(text)
+    events.append(fev(r1, 1))
+    r2 = parse_formula(text)
+    events.append(fev(r2, 2))
+    before = proj(r2)
+    if case['mode'] == 'del' and sym in r1:
+        del r1[sym]
+    else:
+        r1[sym] = new
+    events.append({'ev': 'fhist', 'text': codes(text), 'distinct': r1 is not r2, 'edited': True,
+                   'before': before, 'after': proj(r2)})
+    r3 = parse_formula(text)
+    events.append(fev(r3, 3))
+    events.append({'ev': 'fhist', 'text': codes(text), 'distinct': r3 is not r1 and r3 is not r2, 'edited': False,
+                   'before': before, 'after': proj(r3)})
+    # two species from one formula, one edited; X carries what was taken away
+    a = EmpiricalBase(name='a', phase='G', elements=parse_formula(text))
+    b = EmpiricalBase(name='b', phase='G', elements=parse_formula(text))
+    old = case['old']
+    if new == 0 and case['mode'] == 'del':
+        del b.elements[sym]
+    else:
+        b.elements[sym] = new
+    x = EmpiricalBase(name='x', phase='G', elements=parse_formula(sym))
+    ed = [codes(sym), int(new)]
+    for pr_s, pr_c, pr_ev in (([b, x], [1., float(old - new)], [[[1, 1], codes(text), ed], [[old - new, 1], codes(sym), []]]),
+                              ([b], [1.], [[[1, 1], codes(text), ed]]),
+                              ([a], [1.], [[[1, 1], codes(text), []]])):
+        ev = {'ev': 'fbalance', 're': [[[1, 1], codes(text), []]], 'pr': pr_ev, 'accepted': True}
+        try:
+            Reaction(reactants=[a], reactants_stoich=[1.], products=pr_s, products_stoich=pr_c).check_element_balance()
+        except Exception:
+            ev['accepted'] = False
+        events.append(ev)
+    return events, mism
+
+
+_EXEC = {'fhist': _exec_fhist, 'print': _exec_print, 'hand': _exec_hand, 'ring': _exec_ring, 'balance': _exec_balance,
          'formula': _exec_formula}
 
 
@@ -840,6 +895,18 @@ def _random_balance(rnd, i=0, depth=0):
             'forced': '%s=%s' % (what, val)}
 
 
+def _random_fhist(rnd, i=0):
+    """a formula, and an in-place edit of one symbol's count (t -> t - 1 or t - 2, possibly removing it)"""
+    c = _random_formula(rnd, i)
+    tot = {}
+    for sym, n in c['items']:
+        tot[sym] = tot.get(sym, 0) + (n or 1)
+    sym = rnd.choice(sorted(tot))
+    new = max(0, tot[sym] - rnd.choice([1, 1, 2]))
+    return {'kind': 'fhist', 'src': 'random', 'items': c['items'], 'edit': [sym, new], 'old': tot[sym],
+            'mode': 'del' if (new == 0 and i % 2) else 'set'}
+
+
 def _random_formula(rnd, i=0):
     pool = rnd.sample(ELEMENT_SYMBOLS, rnd.randint(1, 5))
     items = []
@@ -879,7 +946,7 @@ def _nontrivial(case):
         return any(case['rxd'] in ln for ln in case['lines'])
     if k == 'balance':
         return True
-    return len(case['items']) >= 1
+    return len(case['items']) >= 1        # formula, fhist
 
 
 def _signature(case):
@@ -887,7 +954,7 @@ def _signature(case):
                       sort_keys=True)
 
 
-_REPLAY_CLAUSE = {'print': 'ReplayRoundTrip', 'hand': 'ReplayParse', 'ring': 'ReplayRing',
+_REPLAY_CLAUSE = {'fhist': 'ReplayFormula', 'print': 'ReplayRoundTrip', 'hand': 'ReplayParse', 'ring': 'ReplayRing',
                   'balance': 'ReplayBalance', 'formula': 'ReplayFormula'}
 
 
@@ -1000,6 +1067,8 @@ def run(ctx):
             cases.append(_random_balance(rnd, i))
         for i in range(ctx.pick(1500, 30000)):
             cases.append(_random_formula(rnd, i))
+        for i in range(ctx.pick(300, 5000)):
+            cases.append(_random_fhist(rnd, i))
     results = core.pmap(_safe_execute, cases)
     traces = []
     kinds = {}
